@@ -5,6 +5,8 @@ import itertools
 import math
 import struct
 
+from fractions import Fraction
+
 import numpy as np
 import z3
 
@@ -385,6 +387,13 @@ def obligations(tier):
     obs.append(make_vector("2d", ("periodic", "plain", "reflective")))
     obs.append(make_check_bounds("2d", ("plain", "periodic")))
     obs.append(make_check_bounds("2d", ("plain", "plain")))
+    # the closing clause of the property ("a symmetric random-walk proposal followed by the map is a symmetric proposal on the folded
+    # space"): the real RWM step in d=2 with coordinate 0 reflective (C03's obligation; periodic coordinates and d=1 are decided there
+    # as well). Reports a known finding: with a scale matrix that correlates the folded coordinate with another one the clause is false.
+    from vf.props.c03 import make_kernel
+    obs.append(make_kernel("rwm", 2, "reflective", 1))
+    obs.append(make_kernel("rwm", 1, "reflective", 1))
+    obs.append(make_kernel("rwm", 1, "periodic", Fraction(1, 2)))
     if tier == "thorough":
         for assign in itertools.product(kinds, repeat=3):
             obs.append(make_vector("1d", assign))
